@@ -14,4 +14,6 @@ CONTROLS = [
     dict(name="clause prepended instead of appended",
          edits=[(F, '            _param["doc"] = "{doc} Defaults to {default}".format(', '            _param["doc"] = "Defaults to {default}. {doc}".format(')],
          expect=r"set_default_doc/ensures\[1\]"),
+    dict(name="BENIGN: local `has_defaults` renamed throughout defaults_utils.py", benign=True,
+         edits=[("cdd/shared/defaults_utils.py", "has_defaults", "mentions_default", "rename")]),
 ]
